@@ -58,6 +58,28 @@ func vxLoopHavocDecode(m *Message) (int, []byte) {
 	return vxInd.off0, raw[messageHeaderSize+vxInd.off0 : messageHeaderSize+size]
 }
 
+// The same hooks for a loop that carries the offset only (an index walking over an immutable body slice
+// instead of index + re-sliced rest): the rest of the body is then a function of the offset.
+func vxIndRest(offset int) []byte {
+	raw, size := vxInd.raw, vxInd.size
+	if offset < 0 || offset > size || messageHeaderSize+size > len(raw) {
+		return nil // the invariant's offset clause fails and is reported by vxInvDecode
+	}
+	return raw[messageHeaderSize+offset : messageHeaderSize+size]
+}
+
+func vxLoopBaseDecode1(m *Message, offset int) {
+	vxInd.size = vxIndSize()
+	vxLoopBaseDecode(m, offset, vxIndRest(offset))
+}
+
+func vxLoopHavocDecode1(m *Message) int {
+	o, _ := vxLoopHavocDecode(m)
+	return o
+}
+
+func vxLoopStepDecode1(m *Message, offset int) { vxLoopStepDecode(m, offset, vxIndRest(offset)) }
+
 // refStep: one step of the reference parser at body offset o (o < L).
 func refStep(raw []byte, L, o int) (ok bool, next int, a refAttr) {
 	if L-o < 4 {
@@ -148,9 +170,17 @@ func vh_C01_decode_induct() {
 		}
 		return
 	}
+	if !vxInd.havoced {
+		// success without arriving at the loop header (a fast path in front of the loop): only an
+		// attribute-less message may take it, and it must report no attributes
+		vxAssert(vxIndSize() == 0, "success without entering the attribute loop only for an empty body")
+		vxAssert(len(m.Attributes) == 0, "an attribute-less message decodes to an empty attribute list")
+		vxAssert(IsMessage(raw) && m.Length == 0 && len(raw) >= messageHeaderSize, "header-only success: IsMessage, Length 0")
+		return
+	}
 	// the loop was left at the havocked header: offset >= size, so with the invariant offset == size
 	vxReach("exit")
-	vxAssert(vxInd.havoced && !vxInd.stepped, "success is reached through the loop exit")
+	vxAssert(!vxInd.stepped, "success is reached through the loop exit")
 	vxAssert(vxInd.off0 == vxInd.size, "on success the attributes tile the declared body exactly")
 	vxAssert(IsMessage(raw), "IsMessage is true for every input that decodes")
 	vxAssert(int(m.Length) == vxInd.size && len(raw) >= messageHeaderSize+vxInd.size, "Length is the declared length and the body is present")
